@@ -152,6 +152,11 @@ theorem J_step {sp : Spec} (hs : SoundFacts sp) {s : St} (h : J sp s) (e : Ev) (
       have : s.md5 = v := hmd
       omega
   | classify => exact classifyS_J h
+  | retype t0 =>
+    simp only [step]
+    split
+    · exact classifyS_J h
+    · exact h
   | lock => exact ⟨h.md5_lt, h.ver_lt, h.attrs, h.fresh⟩
   | unlock => exact ⟨h.md5_lt, h.ver_lt, h.attrs, h.fresh⟩
   | copy => exact J_copy hs h
@@ -338,6 +343,11 @@ theorem type_kept (sp : Spec) (s : St) (e : Ev) (h : s.typeVer = s.tver)
   | write a => exact h
   | change v t => simp only [step]; rw [he v t rfl]; exact h
   | classify => rfl
+  | retype t0 =>
+    simp only [step]
+    split
+    · rfl
+    · exact h
   | lock => exact h
   | unlock => exact h
   | copy =>
